@@ -50,13 +50,23 @@ func (c c04) Generate(seed uint64, tier string, idx int) *core.Plan {
 		p.Steps = append(p.Steps, core.Step{Op: "iss", A: []int64{t, key}})
 	}
 	p.Steps = append(p.Steps, core.Step{Op: "client3", A: []int64{int64(r.Intn(1 << 20))}})
-	p.Steps = append(p.Steps, core.Step{Op: "origin", A: []int64{0, int64(r.Pick([]int{0, 5, 14, 32, 33, 100})), int64(r.Intn(1 << 20)), 1, 100}})
+	p.Steps = append(p.Steps, core.Step{Op: "origin", A: []int64{0, int64(r.Pick([]int{40, 70, 100, 200})), int64(r.Intn(1 << 20)), 1, 100}})
+	p.Steps = append(p.Steps, core.Step{Op: "origin", A: []int64{0, int64(r.Pick([]int{0, 5, 14, 32})), int64(r.Intn(1 << 20)), 1, 101}})
 	id := 1
-	for _, t := range []int64{1, 2, 3, 5, 1, 2, 3, 5} { // two sessions per type: the second supplies the "previous value" for reuse
+	nthree := 0
+	for _, t := range []int64{1, 2, 3, 5, 1, 2, 3, 5, 3, 5} { // several sessions per type: earlier ones supply the "previous value" for reuse (for types 3 and 5 a LONGER one first)
 		a := make([]int64, sAnon+1)
 		a[sID], a[sType] = int64(id), t
 		a[sChKind], a[sChLen], a[sSeed] = 1, int64(r.Pick([]int{0, 40, 80, 300})), int64(r.Intn(1<<30))
 		a[sBatch] = int64(r.Pick([]int{1, 2, 3, 5, 16, 17}))
+		if t == 5 {
+			a[sBatch] = int64([]int{17, 3, 1}[id%3])
+		}
+		if t == 3 {
+			a[sOrigin] = int64(nthree % 2) // long name first, then short: the decoder object shrinks
+			nthree++
+		}
+		a[sDelay] = int64(id) * 2_000_000
 		a[sAnon] = -2
 		p.Steps = append(p.Steps, core.Step{Op: "sess", A: a})
 		id++
